@@ -193,10 +193,18 @@ class Gen:
         if kind == "local_import":
             # a function-local import binds h1 to the helper module's h1 inside this function, although the module itself
             # defines another h1: the local binding is what a plain call means here
-            lines.append(f"from {self.helper} import h1")
-            lines.append(f"a = h1({E(1)})")
-            names.append("a")
-            lines.append(f"return a + h1({rng.choice(params)}) * {E(1)}")
+            if rng.random() < 0.4:
+                # ... under another name: `h2` is the helper module's h3 inside this function (the module's own h2 is a - 2 b)
+                lines.append(f"from {self.helper} import h3 as h2")
+                lines.append(f"a = h2({E(1)}, {rng.choice(params)})")
+                names.append("a")
+                lines.append(f"return a + h2({rng.choice(params)}, 1.5) * {E(1)}")
+                self.features.add("function_local_import_under_another_name")
+            else:
+                lines.append(f"from {self.helper} import h1")
+                lines.append(f"a = h1({E(1)})")
+                names.append("a")
+                lines.append(f"return a + h1({rng.choice(params)}) * {E(1)}")
             self.features.add("nested_call")
         elif kind == "expr":
             lines.append(f"return {E(3)}")
@@ -282,6 +290,11 @@ class Gen:
         sig = ", ".join(params)
         if "outside:default_arg" in self.features:
             sig = ", ".join(params[:-1] + [f"{params[-1]}=1.5"]) if len(params) > 1 else f"{params[0]}=1.5"
+        elif len(params) >= 2 and rng.random() < 0.1:
+            # positional-only parameters (all of them, or the leading ones): called the same way, translated right or refused
+            cut = rng.randint(1, len(params))
+            sig = ", ".join(params[:cut]) + ", /" + "".join(", " + q for q in params[cut:])
+            self.features.add("positional_only_parameters(" + ("all" if cut == len(params) else "leading") + ")")
         body = "\n".join("    " + ln for ln in lines)
         return f"def {name}({sig}):\n{body}\n", set(self.features)
 
